@@ -147,8 +147,21 @@ let handle (x : Sexp.t) : string =
                List.iter2 (fun a b -> equiv "constraint" a b) s0.i_constraints s1.i_constraints
              end
            end;
-           (* names after a second cycle *)
-           (match names_of (Sexp.field1 "names1" fs), (try names_of (Sexp.field1 "names2" fs) with _ -> None) with
+           (* names: a parsed sys0 must keep its names through the first cycle, sys1 (always parsed) through the second *)
+           let origin = Sexp.atom (Sexp.field1 "origin" fs) in
+           let parsed0 = String.length origin >= 4 && (String.sub origin 0 4 = "pars" || String.sub origin 0 4 = "file") in
+           let names0 =
+             if parsed0 && !problem = None then begin
+               let nm i = big_ocamlstr (sym_name (g0 i)) in
+               let plain0 = List.filter is_plain s0.i_states and nonplain0 = List.filter (fun s -> not (is_plain s)) s0.i_states in
+               Some (List.map nm (s0.i_inputs @ List.map (fun (sy, _, _) -> sy) plain0),
+                     List.map (fun (sy, _, _) -> nm sy) nonplain0,
+                     List.map (fun (n, _) -> big_ocamlstr n) s0.i_outputs)
+             end else None in
+           let cycles = [ (names0, names_of (Sexp.field1 "names1" fs), "first");
+                          (names_of (Sexp.field1 "names1" fs), (try names_of (Sexp.field1 "names2" fs) with _ -> None), "second") ] in
+           List.iter (fun (na, nb, _) ->
+           (match na, nb with
             | Some (i1, st1, o1), Some (i2, st2, o2) ->
                 (* classify the first name that changed *)
                 let drift a b =
@@ -160,8 +173,16 @@ let handle (x : Sexp.t) : string =
                      (let ok = ref true in String.iteri (fun k c -> if k > 0 && not ((c >= '0' && c <= '9') || c = '_') then ok := false) rest; !ok)) in
                   is_suffix_of a b || is_suffix_of b a in
                 let roots = List.map snd s1.i_outputs @ s1.i_bads @ s1.i_constraints in
+                (* names the reader generated itself are not explicit names: they may be renumbered *)
+                let is_autogen a =
+                  List.exists (fun p ->
+                      a = p ||
+                      (String.length a > String.length p + 1 && String.sub a 0 (String.length p + 1) = p ^ "_" &&
+                       (let r = String.sub a (String.length p + 1) (String.length a - String.length p - 1) in
+                        r <> "" && String.for_all (fun c -> c >= '0' && c <= '9') r)))
+                    ["_input"; "_state"; "_output"; "_bad"; "_constraint"] in
                 let first_diff l1 l2 = let rec go k = function
-                    | a :: l, b :: m -> if a <> b then Some (k, a, b) else go (k + 1) (l, m)
+                    | a :: l, b :: m -> if a <> b && not (is_autogen a) then Some (k, a, b) else go (k + 1) (l, m)
                     | _ -> None in go 0 (l1, l2) in
                 if List.length i1 <> List.length i2 || List.length st1 <> List.length st2 || List.length o1 <> List.length o2 then note "names:count"
                 else begin
@@ -169,17 +190,18 @@ let handle (x : Sexp.t) : string =
                    | Some (k, a, b) ->
                        let sym = List.nth s1.i_inputs k in
                        if List.mem sym roots then note "names:inputs:referenced-by-label"
+                       else if String.contains a '$' then note "names:inputs:dollar-cleanup"
                        else if drift a b then note "names:inputs:suffix-drift" else note "names:inputs:other"
                    | None -> ());
                   (match first_diff st1 st2 with
-                   | Some (_, a, b) -> if drift a b then note "names:states:suffix-drift" else note "names:states:other"
+                   | Some (_, a, b) -> if String.contains a '$' then note "names:states:dollar-cleanup" else if drift a b then note "names:states:suffix-drift" else note "names:states:other"
                    | None -> ());
                   (match first_diff o1 o2 with
                    | Some (_, a, b) -> if drift a b then note "names:outputs:suffix-drift" else note "names:outputs:other"
                    | None -> ())
                 end
-            | Some _, None -> note "second-cycle-failed"
-            | _ -> ());
+            | Some _, None -> if na <> names0 then note "second-cycle-failed"
+            | _ -> ())) cycles;
            (* the model's round trip against the implementation's, modulo symbol names *)
            let corr =
              match mser with
